@@ -313,4 +313,283 @@ fn stop_root(rt: &tokio::runtime::Runtime, st: &mut St, terminate: bool) -> &'st
     if terminate && !seen { "lost" } else if st.agent.is_terminated() { "ok" } else { "open" }
 }
 
-pub fn special(_name: &str, _args: &[String]) -> bool { false }
+pub fn special(name: &str, args: &[String]) -> bool {
+    if name == "c08-soak" { soak(args); true } else { false }
+}
+
+// ---------------------------------------------------------------------------
+// c08-soak <millis> <seed>: real threads. Root gate + clones publish concurrently while queue
+// and direct links connect / suspend / disconnect, clones are created and dropped, then the
+// gate is terminated. Everything is stamped with one logical clock; the recorded per-link
+// sequences are judged:
+//   (a) per (link, publisher): strictly increasing sequence numbers (at most once, in order);
+//   (b) nothing missing while connected: an update whose update_data() started after the link's
+//       connect() returned and finished before the link began to leave (direct links), resp.
+//       before the update of the last item the link received in that period started (queue
+//       links, FIFO), must have been received in that period;
+//   (c) after Terminate every clone's process() returned Terminated and every queue link that is
+//       still connected sees Gone.
+// Prints "ok <stats>" or "bad <what>".
+use std::sync::atomic::AtomicU64;
+
+static CLOCK: AtomicU64 = AtomicU64::new(1);
+fn tick() -> u64 { CLOCK.fetch_add(1, SeqCst) }
+
+#[derive(Debug, Default)]
+struct STgt { log: Mutex<Vec<(u32, u32, u64)>> }
+impl DirectUpdate for STgt {
+    fn direct_update<'a, 'b>(&'a self, update: Update) -> Pin<Box<dyn Future<Output = ()> + Send + 'b>>
+    where 'a: 'b, Self: 'b {
+        Box::pin(async move { let (p, n) = dec(&update); self.log.lock().unwrap().push((p, n, tick())); })
+    }
+}
+impl AnyDirectUpdate for STgt {}
+
+struct Rng(u64);
+impl Rng {
+    fn next(&mut self) -> u64 {
+        self.0 = self.0.wrapping_add(0x9E3779B97F4A7C15);
+        let mut z = self.0;
+        z = (z ^ (z >> 30)).wrapping_mul(0xBF58476D1CE4E5B9);
+        z = (z ^ (z >> 27)).wrapping_mul(0x94D049BB133111EB);
+        z ^ (z >> 31)
+    }
+    fn below(&mut self, n: u64) -> u64 { self.next() % n.max(1) }
+}
+
+type PubLog = Vec<(u32, u64, u64)>; // (seq, start, end)
+struct Period { t1: u64, t2: u64, items: Vec<(u32, u32)> }
+
+async fn publisher(g: Arc<Gate>, p: u32, stop: Arc<AtomicBool>, max: u32) -> (u32, PubLog) {
+    let mut log = vec![];
+    let mut n = 0;
+    while !stop.load(SeqCst) && n < max {
+        let start = tick();
+        g.update_data(enc(p, n)).await;
+        log.push((n, start, tick()));
+        n += 1;
+        if n % 4 == 0 { tokio::time::sleep(Duration::from_micros(50)).await; } else { tokio::task::yield_now().await; }
+    }
+    (p, log)
+}
+
+async fn process_loop(g: Arc<Gate>) -> bool {
+    loop { if g.process().await.is_err() { return true } }
+}
+
+pub fn soak(args: &[String]) {
+    let millis: u64 = args.first().and_then(|s| s.parse().ok()).unwrap_or(1500);
+    let seed: u64 = args.get(1).and_then(|s| s.parse().ok()).unwrap_or(1);
+    static PANICS: Mutex<Vec<String>> = Mutex::new(Vec::new());
+    std::panic::set_hook(Box::new(|info| {
+        let mut v = PANICS.lock().unwrap();
+        if v.len() < 5 { v.push(info.to_string().replace('\n', " ")); }
+        if std::env::var("C08_SOAK_DEBUG").is_ok() { eprintln!("PANIC {info}"); }
+    }));
+    let rt = tokio::runtime::Builder::new_multi_thread().worker_threads(6).enable_time().build().unwrap();
+    let verdict: Result<String, String> = rt.block_on(async move {
+        let (gate, mut agent) = Gate::new(3);
+        let gate = Arc::new(gate);
+        let pubs_stop = Arc::new(AtomicBool::new(false));
+        let links_stop = Arc::new(AtomicBool::new(false));
+        let root_task = tokio::spawn(process_loop(gate.clone()));
+        // publishers: the root gate and two long-lived clones
+        let mut pub_tasks = vec![tokio::spawn(publisher(gate.clone(), 0, pubs_stop.clone(), u32::MAX))];
+        let mut clone_proc = vec![];
+        for p in 1..=2u32 {
+            let c = Arc::new(gate.as_ref().clone());
+            clone_proc.push(tokio::spawn(process_loop(c.clone())));
+            pub_tasks.push(tokio::spawn(publisher(c, p, pubs_stop.clone(), u32::MAX)));
+        }
+        // clone churn: short-lived clones, each a fresh publisher id
+        let churn = {
+            let (g, stop) = (gate.clone(), pubs_stop.clone());
+            tokio::spawn(async move {
+                let mut logs = vec![];
+                let mut p = 10u32;
+                while !stop.load(SeqCst) {
+                    // the idiomatic way: run the clone's machine while publishing, then drop it at once
+                    let c = Arc::new(g.as_ref().clone());
+                    match c.process_until(publisher(c.clone(), p, stop.clone(), 5)).await {
+                        Ok(l) => logs.push(l),
+                        Err(_) => break,
+                    }
+                    drop(Arc::try_unwrap(c).expect("churn clone still shared"));
+                    p += 1;
+                    tokio::time::sleep(Duration::from_micros(300)).await;
+                }
+                logs
+            })
+        };
+        // links
+        let mut qtasks = vec![];
+        let mut dtasks = vec![];
+        for l in 0..4u64 {
+            let link = agent.create_link();
+            let stop = links_stop.clone();
+            let mut rng = Rng(seed.wrapping_mul(1000).wrapping_add(l));
+            if l % 2 == 0 {
+                qtasks.push(tokio::spawn(async move {
+                    let mut link = link;
+                    let mut periods: Vec<Period> = vec![];
+                    let mut gone = false;
+                    'outer: loop {
+                        if link.connect(false).await.is_err() { gone = true; break; }
+                        let mut per = Period { t1: tick(), t2: 0, items: vec![] };
+                        let k = 1 + rng.below(30);
+                        let leave = stop.load(SeqCst);
+                        for i in 0..k {
+                            if i == k / 2 && rng.below(4) == 0 { link.suspend().await; }
+                            match tokio::time::timeout(Duration::from_millis(3), link.query()).await {
+                                Ok(Ok(u)) => per.items.push(dec(&u)),
+                                Ok(Err(_)) => { gone = true; periods.push(per); break 'outer; }
+                                Err(_) => {}
+                            }
+                        }
+                        per.t2 = tick();
+                        if leave {
+                            // last round: stay connected and drain until the gate is gone
+                            loop {
+                                match tokio::time::timeout(Duration::from_millis(2000), link.query()).await {
+                                    Ok(Ok(u)) => per.items.push(dec(&u)),
+                                    Ok(Err(_)) => { gone = true; break; }
+                                    Err(_) => break,
+                                }
+                            }
+                            periods.push(per);
+                            break;
+                        }
+                        link.disconnect().await;
+                        periods.push(per);
+                        tokio::time::sleep(Duration::from_micros(rng.below(1500))).await;
+                    }
+                    (l, periods, gone)
+                }));
+            } else {
+                let tgt = Arc::new(STgt::default());
+                dtasks.push(tokio::spawn(async move {
+                    let mut dl = DirectLink::from(link);
+                    let mut periods: Vec<(u64, u64)> = vec![];
+                    while !stop.load(SeqCst) {
+                        if dl.connect(tgt.clone(), false).await.is_err() { break; }
+                        let t1 = tick();
+                        tokio::time::sleep(Duration::from_micros(rng.below(3000))).await;
+                        let t2 = tick();
+                        if rng.below(4) == 0 { dl.suspend().await; }
+                        dl.disconnect().await;
+                        periods.push((t1, t2));
+                        tokio::time::sleep(Duration::from_micros(rng.below(800))).await;
+                    }
+                    let log = tgt.log.lock().unwrap().clone();
+                    (l, periods, log)
+                }));
+            }
+        }
+        tokio::time::sleep(Duration::from_millis(millis)).await;
+        // stop publishing (links keep consuming so that nobody stays blocked), then the links
+        let dbg = std::env::var("C08_SOAK_DEBUG").is_ok();
+        if dbg { eprintln!("stopping publishers"); }
+        pubs_stop.store(true, SeqCst);
+        let mut plogs: Vec<(u32, PubLog)> = vec![];
+        for (i, t) in pub_tasks.into_iter().enumerate() {
+            match tokio::time::timeout(Duration::from_secs(5), t).await {
+                Ok(r) => plogs.push(r.unwrap()),
+                Err(_) => return Err(format!("publisher {i} is stuck inside update_data")),
+            }
+        }
+        if dbg { eprintln!("publishers joined"); }
+        plogs.extend(churn.await.unwrap());
+        if dbg { eprintln!("churn joined"); }
+        links_stop.store(true, SeqCst);
+        let mut dres = vec![];
+        for t in dtasks { dres.push(t.await.unwrap()); }
+        tokio::time::sleep(Duration::from_millis(20)).await;
+        if dbg { eprintln!("direct links joined"); }
+        agent.terminate().await;
+        let root_term = tokio::time::timeout(Duration::from_secs(5), root_task).await.map(|r| r.unwrap_or(false)).unwrap_or(false);
+        drop(gate);
+        let mut clones_term = true;
+        for t in clone_proc {
+            clones_term &= tokio::time::timeout(Duration::from_secs(5), t).await.map(|r| r.unwrap_or(false)).unwrap_or(false);
+        }
+        if dbg { eprintln!("terminated root={root_term} clones={clones_term}"); }
+        let mut qres = vec![];
+        if dbg { eprintln!("waiting for queue links"); }
+        for (i, t) in qtasks.into_iter().enumerate() {
+            if dbg { eprintln!("waiting for queue link task {i}"); }
+            match tokio::time::timeout(Duration::from_secs(10), t).await {
+                Ok(r) => qres.push(r.unwrap()),
+                Err(_) => return Err(format!("queue link {} is stuck after termination (neither an update nor Gone)", 2 * i)),
+            }
+        }
+
+        // ---- judge
+        if dbg { eprintln!("judging"); }
+        use std::collections::HashMap;
+        let mut when: HashMap<(u32, u32), (u64, u64)> = HashMap::new();
+        let mut published = 0usize;
+        for (p, log) in &plogs { for (n, s, e) in log { when.insert((*p, *n), (*s, *e)); published += 1; } }
+        let in_order = |seq: &[(u32, u32)], who: String| -> Result<(), String> {
+            let mut last: HashMap<u32, u32> = HashMap::new();
+            for (p, n) in seq {
+                if let Some(m) = last.get(p) { if n <= m { return Err(format!("{who}: publisher {p} seq {n} after {m} (duplicate or out of order)")); } }
+                last.insert(*p, *n);
+            }
+            Ok(())
+        };
+        let mut received = 0usize;
+        let mut nperiods = 0usize;
+        let mut checked = 0usize;
+        // updates sorted by start stamp: (start, end, p, n)
+        let mut by_start: Vec<(u64, u64, u32, u32)> = when.iter().map(|((p, n), (s, e))| (*s, *e, *p, *n)).collect();
+        by_start.sort();
+        let missing = |t1: u64, bound: u64, have: &std::collections::HashSet<(u32, u32)>, checked: &mut usize| -> Option<(u32, u32)> {
+            let from = by_start.partition_point(|u| u.0 <= t1);
+            for u in &by_start[from..] {
+                if u.0 >= bound { break }
+                if u.1 < bound {
+                    *checked += 1;
+                    if !have.contains(&(u.2, u.3)) { return Some((u.2, u.3)) }
+                }
+            }
+            None
+        };
+        for (l, periods, gone) in &qres {
+            let all: Vec<(u32, u32)> = periods.iter().flat_map(|p| p.items.iter().copied()).collect();
+            received += all.len();
+            in_order(&all, format!("queue link {l}"))?;
+            for per in periods {
+                nperiods += 1;
+                let Some(last) = per.items.last() else { continue };
+                let Some((s_last, _)) = when.get(last) else { return Err(format!("queue link {l} received unpublished {last:?}")) };
+                let have: std::collections::HashSet<(u32, u32)> = per.items.iter().copied().collect();
+                if let Some((p, n)) = missing(per.t1, *s_last, &have, &mut checked) {
+                    return Err(format!("queue link {l}: update {p}.{n} published while connected is missing"));
+                }
+            }
+            if !gone { return Err(format!("queue link {l} did not observe Gone after termination")); }
+        }
+        for (l, periods, log) in &dres {
+            let all: Vec<(u32, u32)> = log.iter().map(|x| (x.0, x.1)).collect();
+            received += all.len();
+            in_order(&all, format!("direct link {l}"))?;
+            let have: std::collections::HashSet<(u32, u32)> = all.iter().copied().collect();
+            for (t1, t2) in periods {
+                nperiods += 1;
+                if let Some((p, n)) = missing(*t1, *t2, &have, &mut checked) {
+                    return Err(format!("direct link {l}: update {p}.{n} published while connected is missing"));
+                }
+            }
+        }
+        if !root_term { return Err("root gate did not terminate".into()); }
+        if !clones_term { return Err("a clone did not observe the termination".into()); }
+        Ok::<String, String>(format!("published={published} received={received} periods={nperiods} connected-checks={checked} publishers={}", plogs.len()))
+    });
+    let panics = PANICS.lock().unwrap().clone();
+    match verdict {
+        _ if !panics.is_empty() => println!("bad a task panicked: {}", panics[0]),
+        Ok(s) => println!("ok {s}"),
+        Err(e) => println!("bad {e}"),
+    }
+    rt.shutdown_timeout(Duration::from_secs(1));
+}
